@@ -805,7 +805,8 @@ class KernelCpu:
                     return self.ffi_interface.cast(
                         value._itemtype._c_type + "*",
                         self.ffi_interface.from_buffer(
-                            value._buffer.buffer[
+                            # memoryview: slicing a bytearray would copy
+                            memoryview(value._buffer.buffer)[
                                 value._offset + value._data_offset :
                             ]  # fails for pyopencl, cuda
                         ),
